@@ -382,7 +382,19 @@ fn make_cfg(rng: &mut Rng, systematic: Option<usize>) -> Cfg {
         row.push(tr("sldr"));
         text.push_str(&format!("(deflayer l{layer} {})\n", row.join(" ")));
     }
-    text.push_str("(defvirtualkeys vk1 f24)\n(defseq vk1 (q a))\n");
+    // every letter of the three alphabets starts a sequence, so a plain letter typed after the leader
+    // keeps the sequence pending until the timeout
+    let mut vk = String::from("(defvirtualkeys");
+    let mut sq = String::from("(defseq");
+    let mut n = 0;
+    for a in ALPH.iter() {
+        for i in 0..a.letters.len() {
+            n += 1;
+            vk.push_str(&format!(" vk{n} f24"));
+            sq.push_str(&format!(" vk{n} ({} {})", a.letters[i], a.letters[(i + 1) % a.letters.len()]));
+        }
+    }
+    text.push_str(&format!("{vk})\n{sq})\n"));
     text.push_str(&extra);
     // chord-v1 cells inherit the forms of the group's actions
     if chords_v1 {
@@ -471,6 +483,8 @@ struct Held {
     from_settled: bool,
     /// layer context at press time
     layers_at_press: (Vec<usize>, usize),
+    /// kanata was in sequence mode when the key was pressed
+    pressed_in_seq: bool,
 }
 
 struct Window<'a> {
@@ -524,8 +538,13 @@ fn do_repeat(out: &mut CaseOut, w: &mut Window, code: u16, hostile: bool) {
     } else {
         out.inc("repeats_forwarded");
     }
+    let held = w.held.iter().find(|h| h.code == code).cloned();
     if in_seq {
         out.inc("repeats_in_sequence_mode");
+        out.inc(&format!("repeats_while_{}_sequence_pending", w.cfg.seq_mode));
+        if held.as_ref().map(|h| h.pressed_in_seq).unwrap_or(false) {
+            out.inc(&format!("repeats_of_key_typed_into_pending_{}_sequence", w.cfg.seq_mode));
+        }
     }
     let pending = {
         let l = w.d.sim.k.layout.b();
@@ -534,7 +553,6 @@ fn do_repeat(out: &mut CaseOut, w: &mut Window, code: u16, hostile: bool) {
     if pending {
         out.inc("repeats_during_pending_decision");
     }
-    let held = w.held.iter().find(|h| h.code == code).cloned();
     let layers_now = (w.held_layers.clone(), w.base);
     let cell = held.as_ref().map(|h| w.effective_cell(h.ki, &layers_now).clone());
     let shown: Vec<String> = outs.iter().map(|o| o.short()).collect();
@@ -551,7 +569,10 @@ fn do_repeat(out: &mut CaseOut, w: &mut Window, code: u16, hostile: bool) {
         if !down_before.contains(&o.name) {
             // classify: the documented class is unmod/unshift together with overrides
             let any_unmod_held = w.unmod_pressed;
-            let sig = if w.pressed_in_seq && w.cfg.seq_mode != "visible-backspaced" {
+            let sig = if in_seq && w.cfg.seq_mode != "visible-backspaced" {
+                // the hidden modes suppress every repeat while the sequence is in progress
+                "C14:repeat-forwarded-during-hidden-sequence"
+            } else if w.pressed_in_seq && w.cfg.seq_mode != "visible-backspaced" {
                 // a key pressed while a hidden sequence was being typed never reached the OS
                 "C14:repeat-of-up-key:press-hidden-by-sequence-mode"
             } else if any_unmod_held && w.cfg.has_overrides {
@@ -812,7 +833,8 @@ fn run_window(out: &mut CaseOut, cfg: &Cfg, rng: &mut Rng, wi: usize) -> Option<
             let code = osc(ALPH[ki].phys);
             let from_settled = w.d.settled();
             let before = w.d.sim.os.keys_down.clone();
-            if w.d.sim.k.sequence_state.is_active() {
+            let in_seq_at_press = w.d.sim.k.sequence_state.is_active();
+            if in_seq_at_press {
                 w.pressed_in_seq = true;
             }
             w.d.press(code);
@@ -822,7 +844,7 @@ fn run_window(out: &mut CaseOut, cfg: &Cfg, rng: &mut Rng, wi: usize) -> Option<
             if w.effective_cell(ki, &lp).unmod || (w.cfg.chords_v1 && w.cfg.cells.iter().any(|row| row[ki].unmod)) {
                 w.unmod_pressed = true;
             }
-            w.held.push(Held { ki, code, before, from_settled, layers_at_press: lp });
+            w.held.push(Held { ki, code, before, from_settled, layers_at_press: lp, pressed_in_seq: in_seq_at_press });
             out.inc(if from_settled { "presses_from_settled_state" } else { "presses_while_unsettled" });
             last_event_tick = w.d.sim.now;
         } else if r < 60 && !w.held.is_empty() {
@@ -1013,6 +1035,10 @@ impl Check for C14Check {
             ("completeness_judged", 70_000 * s),
             ("repeats_during_pending_decision", 15_000 * s),
             ("repeats_in_sequence_mode", 10_000 * s),
+            ("repeats_while_hidden-delay-type_sequence_pending", 2_000 * s),
+            ("repeats_while_hidden-suppressed_sequence_pending", 2_000 * s),
+            ("repeats_of_key_typed_into_pending_hidden-delay-type_sequence", 300 * s),
+            ("repeats_of_key_typed_into_pending_hidden-suppressed_sequence", 300 * s),
             ("judged_with_held_layer", 20_000 * s),
             ("judged_on_switched_base_layer", 15_000 * s),
             ("judged_with_overrides", 30_000 * s),
